@@ -77,6 +77,7 @@ type World struct {
 	totalEffects int
 	verOrd       map[string]int // record key -> number of successful writes (normalised version)
 
+	panics     []string // reconciles that panicked
 	handlers   map[string]*Handler
 	hOrder     []string
 	Trace      *Trace
@@ -735,6 +736,21 @@ func (w *World) runReconcile(c *ctl, a *Actor, r controller.Reconciler, id contr
 		a.onDone = nil
 	}
 	return nil
+}
+
+func (w *World) notePanic(p string) {
+	w.mu.Lock()
+	w.panics = append(w.panics, p)
+	w.mu.Unlock()
+}
+
+// TakePanics returns (and forgets) the reconciles that panicked since the last call.
+func (w *World) TakePanics() []string {
+	w.mu.Lock()
+	defer w.mu.Unlock()
+	p := w.panics
+	w.panics = nil
+	return p
 }
 
 func (w *World) totalEffectsNow() int {
